@@ -153,6 +153,29 @@ NOT_APPLICABLE = []
 ALL = ["C%02d" % i for i in range(1, 21)]
 
 
+# second pass (DESIGN.md 12.7/12.8): what each check gained; appended to the texts above
+ADDENDA = {
+    "C01": (" Workloads also contain lease batches that name no live lease (a leaked write transaction after such a batch loses every later acknowledged write), and the redelivery probe waits for leases extended just before the kill.", ""),
+    "C02": (" Monitor soundness: Properties/C02.v also proves that the executable monitor P_C02 itself holds on every trace of the model (both flavours, every configuration, history and oracle; premise: no successful enqueue re-uses a stored id), so the monitor evaluated on the Go stores demands nothing the model does not deliver. The stores under test are built by run.go's own newQueueStore; scenario fragments (batch lease + extend + expiry, restart with live leases, nack schedule, retention ages) run before the random histories.", ""),
+    "C03": (" Properties/C03conc.v: an overlap monitor over concurrent histories (calls with invocation/response stamps) is proved to raise no alarm on any linearizable history of Model/Queue.step; lib/c03conc.py drives 8-16 goroutines against the real stores, the pull HTTP handler, the worker gRPC service and a real PushDispatcher and evaluates the monitor in Coq. P_C03 is proved to hold on every model trace (P_C03_holds_on_model).", " The note above about sequential histories is superseded for C03: atomicity of the store methods is now exercised by the concurrent stress (a mutation releasing the mutex between select and lease is caught on every run), not only assumed."),
+    "C04": (" Pull layer: Model/PullOps.v + Properties/C04pull.v (14 theorems) model the HTTP and gRPC handlers in front of the store - idempotent-answer cache (key, exclusive TTL window, capacity, refresh), status mapping, batch partition, dequeue clamps - compared call by call with the real handlers on both backends. P_C04 is proved to hold on every model trace; a lease batch settles exactly the stored messages whose current lease it presents (C04_batch_counts_exact).", ""),
+    "C05": (" P_C05 is proved to hold on every model trace (must-offer <= offered <= may-offer per message; SQLite flavour under a monotone clock via the swept invariant).", ""),
+    "C06": (" Sends are also counted ON THE WIRE: the real HTTPDeliverer with a real http.Transport delivers to a raw TCP target that reads the message and drops a re-used keep-alive connection; one attempt must be one send.", " Known findings wire-replay:producer-header:{Idempotency-Key,X-Idempotency-Key}: net/http re-sends such a POST inside one attempt."),
+    "C07": (" Header values include the valid UTF-8 that encoders treat specially (tag/format characters outside the BMP, zero-width, BOM, U+2028/9, C1 controls, non-characters).", ""),
+    "C08": (" Timestamps further from the clock than a time.Duration can express, and final forward-auth statuses below 200 written on the raw connection, are part of the request families.", ""),
+    "C10": (" The criteria the model receives come from the compiled configuration; compile itself is tied by a second spelling of the same meaning: a configuration whose routes reference shared named matchers and the same configuration with the references expanded inline must compile to the same criteria and route every request alike.", ""),
+    "C11": (" Unloadable token references (empty/missing env, empty/blank file) are placed in pull_api, admin_api and route pull blocks: a start that succeeds without the token is reported.", ""),
+    "C12": (" P_C12 is proved to hold on every model trace; C12_successful_enqueue_evicts_exactly states what a successful enqueue evicts on either backend (distinct queued messages, exactly max 0 (A + k - max_depth) of them, each no younger than every queued message that stays).", ""),
+    "C13": (" Postgres: Properties/C13pg.v (74 theorems) ties postgres.go to sqlite.go statically - a go/ast translator regenerates statement/control skeletons of both files on every run (Gen/PgTie.v), a Gallina normaliser (Model/SqlNorm.v, proved idempotent and guard-preserving for all token lists) maps both dialects to one form, and every Store method's normal forms must be equal modulo the reviewed table Model/PgAllowedDiffs.v.", " The Postgres tie is syntactic (engine/pgx semantics and each listed structural equivalence are reviewed, not proved); its 15 observable divergences are known findings pgtie:divergence:*."),
+    "C14": (" Request layer: Model/ManageGlue.v + Properties/C14admin.v (26 theorems) model the Admin API handlers and MCP tools in front of the mutations (id-list parser, filter glue with limit default/clamp, refusals without effect, response counts, allowed-state sets), compared request by request with the real servers. P_C14 is proved to hold on every model trace.", ""),
+    "C17": (" Sequences of deliveries through ONE deliverer and ONE signing configuration with the clock moving forwards, backwards and shuffled: the version signed with is a function of the signing instant alone.", ""),
+    "C18": (" File replacement is also run through a symlinked configuration path (strace trace judged by replace_ok, SIGKILL at every syscall).", ""),
+}
+for _pid, (_t, _n) in ADDENDA.items():
+    CHECKS[_pid]["text"] = CHECKS[_pid]["text"] + _t
+    CHECKS[_pid]["note"] = CHECKS[_pid]["note"] + _n
+
+
 def main():
     checks = []
     for pid in ALL:
